@@ -474,7 +474,7 @@ def table_cases(ctx, cfg):
         if k % (6 if ctx.quick else 2) == 0:
             mats.append(model_matrix_spec(mat, "dna", rng.choice(DNA_PERMS)))
         cases.append({"kind": "table", "seed": ctx.seed * 7919 + k, "par": list(par), "mats": mats,
-                      "weights": weight_vectors(nc, (1, 2))})
+                      "weights": weight_vectors(nc, (0, 1, 2))})
     os.remove(dump)
     return cases, ninputs, nbig
 
@@ -588,7 +588,7 @@ def run(ctx):
         ctx.notes.append("%d inputs with 5 leaves are checked by TLC at model level; a seeded 1-in-10 sample of them is replayed on the real code" % nbig)
     ctx.rule = ("cases = every complete input with <= 4 leaves of TLC's dump of MC_Fitch/SpecT (%d inputs: every ordered bifurcating shape with 2..%d leaves "
                 "x every 1-character matrix over 9 cell kinds, 2-character matrices over {0,1,gap} up to one leaf less; each scored on fresh trees for both gap "
-                "treatments x every weight vector over {1,2}, as Standard matrix and 1 in %d also embedded in Dna) + one real history per "
+                "treatments x every weight vector over {0,1,2}, as Standard matrix and 1 in %d also embedded in Dna) + one real history per "
                 "transition of the dumped SpecS graph (%d transitions; those starting more than one step from an initial state: 1 in %d) + %d seeded random histories and %d random instances on trees with "
                 "5-9 leaves; distinct_nontrivial = distinct (tree, taxa, matrix, gap treatment, weights, api[, cached leaf sets]) calls whose "
                 "matrix has a column with at least two different symbols" % (ninputs, ml, 6 if q else 2, nedges, 8 if q else 1, nrand, ntab))
